@@ -283,3 +283,185 @@ Qed.
 
 Theorem run_xt_replay vt s x : state_after vt (fst (run_xt vt s x)) = rreg pj1 (snd (run_xt vt s x)).
 Proof. unfold state_after, run_xt. exact (proj1 (run_core_xt_good vt (normalise vt s) x)). Qed.
+
+(* ---- the extended semantics never runs out of fuel --------------------------------------------------------------
+   Re-entrant lookups do not break the termination argument of Proofs/FactoryTermination.v: a nested call either
+   finds a cache entry, or short-circuits without recursion, or creates a defined name that had no cache entry
+   (which it caches before recursing). *)
+From Coq Require Import Lia.
+From IocVerif Require Import Proofs.FactoryTermination.
+
+Section TermX.
+  Variable vt : variant.
+  Variable s : scenario.
+  Variable x : extras.
+  Let pop := s_pop s.
+  Variable f : nat.
+  Variable rect : fstate -> name -> tres (fstate * ver).
+  Hypothesis Hgood : forall st d stk, Cov stk (reg st) -> FactoryTraceProofs.good vt pj2 stk (reg st) (rect st d).
+  Hypothesis Hnf : forall st d, ucount pop (reg st) < f -> nofuel (snd (rect st d)).
+
+  Lemma good_mono {A : Type} (pj : A -> fstate) r0 o a : FactoryTraceProofs.good vt pj [] r0 (o, Ok a) -> mono r0 (reg (pj a)).
+  Proof. intros [_ [Hm _]]. exact Hm. Qed.
+
+  Lemma get_all_nf : forall c st, ucount pop (reg st) < f -> nofuel (snd (get_all_t rect st c)).
+  Proof.
+    induction c as [|[d|] r IH]; intros st Hu; cbn [get_all_t]; try exact I.
+    pose proof (Hnf st d Hu) as H1. pose proof (Hgood st d [] (Cov_nil _)) as Hg.
+    destruct (rect st d) as [o1 [[st1 v]|k st1]]; [|exact H1].
+    pose proof (good_mono pj2 _ _ _ Hg) as Hm. cbn [pj2 fst] in Hm.
+    assert (Hu1 : ucount pop (reg st1) < f) by (pose proof (ucount_mono pop _ _ Hm); lia).
+    specialize (IH st1 Hu1). destruct (get_all_t rect st1 r) as [o2 [[st2 vs]|k st2]]; [exact I|exact IH].
+  Qed.
+
+  Lemma inject_points_nf h : forall ps k inj st, ucount pop (reg st) < f ->
+    nofuel (snd (inject_points_t vt s rect h k ps inj st)).
+  Proof.
+    induction ps as [|p ps' IH]; intros k inj st Hu; cbn [inject_points_t]; [exact I|].
+    destruct inj as [|i inj']; [exact I|]. destruct i as [|c0 c1]; [apply IH; exact Hu|].
+    pose proof (get_all_nf (c0 :: c1) st Hu) as H1.
+    pose proof (get_all_good vt rect Hgood (c0 :: c1) st [] (Cov_nil _)) as Hg.
+    destruct (get_all_t rect st (c0 :: c1)) as [o1 [[st1 vs]|k1 st1]]; [|exact H1].
+    pose proof (good_mono pj2 _ _ _ Hg) as Hm. cbn [pj2 fst] in Hm.
+    pose proof (inject_nofuel vt s st1 h k p vs) as Hin. pose proof (FactoryTraceProofs.inject_reg vt s st1 h k p vs) as Hir.
+    destruct (inject vt s st1 h k p vs) as [st2|k2 st2]; [|exact Hin]. unfold rreg, pj1 in Hir.
+    assert (Hu2 : ucount pop (reg st2) < f) by (rewrite Hir; pose proof (ucount_mono pop _ _ Hm); lia).
+    specialize (IH (S k) inj' st2 Hu2). destruct (inject_points_t vt s rect h (S k) ps' inj' st2). exact IH.
+  Qed.
+
+  Lemma populate_nf st n c : ucount pop (reg st) < f -> nofuel (snd (populate_t vt s rect st n c)).
+  Proof.
+    intros Hu. unfold populate_t. pose proof (pipeline_quiet vt s n c (active st) st (cur_injs st n c)) as Hq.
+    destruct (pipeline vt s n c (active st) st (cur_injs st n c)) as [[st1 inj]|k st1].
+    - cbn [quiet2] in Hq. apply inject_points_nf. cbn [reg set_injs]. rewrite Hq. exact Hu.
+    - destruct k as [e| |]; [exact I|exact I|exact Hq].
+  Qed.
+
+  Lemma init_gets_nf n : forall ds j st, ucount pop (reg st) < f -> nofuel (snd (init_gets_t rect n j ds st)).
+  Proof.
+    induction ds as [|d r IH]; intros j st Hu; cbn [init_gets_t]; [exact I|].
+    pose proof (Hnf st d Hu) as H1. pose proof (Hgood st d [] (Cov_nil _)) as Hg.
+    destruct (rect st d) as [o1 [[st1 v]|k st1]]; [|exact H1].
+    pose proof (good_mono pj2 _ _ _ Hg) as Hm. cbn [pj2 fst] in Hm.
+    assert (Hu1 : ucount pop (reg (write_plain st1 n (100 + j) [v])) < f)
+      by (change (reg (write_plain st1 n (100 + j) [v])) with (reg st1); pose proof (ucount_mono pop _ _ Hm); lia).
+    specialize (IH (S j) _ Hu1). destruct (init_gets_t rect n (S j) r (write_plain st1 n (100 + j) [v])). exact IH.
+  Qed.
+
+  Lemma initialize_xt_nf st n c : ucount pop (reg st) < f -> nofuel (snd (initialize_xt s x rect st n c)).
+  Proof.
+    intros Hu. unfold initialize_xt.
+    pose proof (before_chain_quiet s n c (active st) st st eq_refl) as Hb.
+    destruct (before_chain s n c (active st) st) as [st1|[e| |] st1]; try exact I; try exact Hb. cbn [quiet1] in Hb.
+    unfold init_methods_xt. pose proof (init_methods_quiet n c st1 st1 eq_refl) as Hi.
+    destruct (init_methods n c st1) as [st2|[e| |] st2]; try exact I; try exact Hi. cbn [quiet1] in Hi.
+    assert (Hu2 : ucount pop (reg st2) < f) by (rewrite Hi, Hb; exact Hu).
+    assert (Hq : forall st3, reg st3 = reg st2 -> nofuel (after_chain s n (active st3) st3 None)).
+    { intros st3 _. pose proof (after_chain_quiet s n (active st3) st3 st3 None eq_refl) as Ha.
+      destruct (after_chain s n (active st3) st3 None) as [[st4 w]|[e| |] st4]; try exact I. exact Ha. }
+    destruct (c_init c).
+    - pose proof (init_gets_nf n (initget_of x n) 0 st2 Hu2) as Hg.
+      destruct (init_gets_t rect n 0 (initget_of x n) st2) as [o [st3|k st3]]; [|exact Hg].
+      cbn [snd]. pose proof (after_chain_quiet s n (active st3) st3 st3 None eq_refl) as Ha.
+      destruct (after_chain s n (active st3) st3 None) as [[st4 w]|[e| |] st4]; try exact I. exact Ha.
+    - cbn [snd]. apply (Hq st2 eq_refl).
+  Qed.
+
+  Lemma do_create_xt_nf st n c :
+    ucount pop (reg (set_reg st (add_factory (reg st) n n))) < f -> nofuel (snd (do_create_xt vt s x rect st n c)).
+  Proof.
+    intros Hu. unfold do_create_xt. cbv zeta. set (st0 := set_reg st (add_factory (reg st) n n)) in *.
+    pose proof (populate_nf st0 n c Hu) as H1.
+    pose proof (populate_good vt s rect Hgood st0 n c [] (Cov_nil _)) as Hg.
+    destruct (populate_t vt s rect st0 n c) as [o1 [st1|k1 st1]]; [|exact H1].
+    pose proof (good_mono pj1 _ _ _ Hg) as Hm. unfold pj1 in Hm.
+    assert (Hu1 : ucount pop (reg st1) < f) by (pose proof (ucount_mono pop _ _ Hm); lia).
+    pose proof (initialize_xt_nf st1 n c Hu1) as H2.
+    destruct (initialize_xt s x rect st1 n c) as [oi [[st2 w]|k2 st2]]; [|exact H2].
+    unfold get_singleton_t. cbn [snd].
+    pose proof (get_singleton_spec s st2 n false) as Hgs.
+    destruct (get_singleton s st2 n false) as [[st3 [e|]]|[e| |] st3]; try exact I.
+    - destruct w; [destruct (stale_dependents vt st2 n)|]; exact I.
+    - exact Hgs.
+  Qed.
+
+  Lemma create_xt_nf st n :
+    cached (reg st) n = false -> ucount pop (reg st) < S f -> nofuel (snd (create_xt vt s x rect st n)).
+  Proof.
+    intros Hunc Hu. unfold create_xt. destruct (scanned st); [|exact I].
+    destruct (get_comp (s_pop s) n) as [c|] eqn:Ec; [|exact I].
+    destruct (shorted x st n).
+    - cbn [snd]. pose proof (after_chain_quiet s n (active st) st st None eq_refl) as Ha.
+      destruct (after_chain s n (active st) st None) as [[st4 w]|[e| |] st4]; try exact I. exact Ha.
+    - apply do_create_xt_nf. cbn [reg set_reg].
+      assert (Hs : ucount pop (add_factory (reg st) n n) < ucount pop (reg st)).
+      { apply (ucount_strict pop (reg st) (add_factory (reg st) n n) n).
+        - apply mono_add_factory.
+        - eapply get_comp_lt; exact Ec.
+        - exact Hunc.
+        - apply cached_add_factory. }
+      unfold pop in *. lia.
+  Qed.
+End TermX.
+
+Lemma body_with_nf vt s crt st n (pop := s_pop s) f :
+  (forall st0 n0, cached (reg st0) n0 = false -> ucount pop (reg st0) < S f -> nofuel (snd (crt st0 n0))) ->
+  ucount pop (reg st) < S f -> nofuel (snd (body_with vt s crt st n)).
+Proof.
+  intros Hcrt Hu. unfold body_with, get_singleton_t.
+  pose proof (get_singleton_spec s st n true) as Hg.
+  destruct (get_singleton s st n true) as [[st1 [v|]]|[e| |] st1]; try exact I; [|exact Hg].
+  destruct Hg as [_ [_ [Hr1 Hmiss]]]. pose proof (get_lookup_miss_uncached _ _ Hmiss) as Hunc.
+  unfold begin_create. destruct (alookup n (L1 (reg st1))) as [v|]; [exact I|].
+  set (r1 := mkR (L1 (reg st1)) (L2 (reg st1)) (L3 (reg st1)) (set_add n (creating (reg st1)))).
+  assert (H1 : nofuel (snd (crt (set_reg st1 r1) n))).
+  { apply Hcrt; cbn [reg set_reg].
+    - change (cached r1 n) with (cached (reg st1) n). rewrite Hr1. exact Hunc.
+    - change (ucount pop r1) with (ucount pop (reg st1)). rewrite Hr1. exact Hu. }
+  destruct (crt (set_reg st1 r1) n) as [o1 [[st2 v]|[e| |] st2]]; try exact I. exact H1.
+Qed.
+
+Theorem do_get_xt_terminates vt s x : forall fuel st n,
+  ucount (s_pop s) (reg st) < fuel -> nofuel (snd (do_get_xt vt s x fuel st n)).
+Proof.
+  induction fuel as [|f IH]; intros st n Hu; [lia|]. cbn [do_get_xt]. unfold body_xt.
+  apply (body_with_nf vt s _ st n f); [|exact Hu].
+  intros st0 n0 Hunc Hu0.
+  apply (create_xt_nf vt s x f (do_get_xt vt s x f)
+           (fun st1 d stk H1 => do_get_xt_good vt s x f st1 d stk H1) (fun st1 d H1 => IH st1 d H1) st0 n0 Hunc Hu0).
+Qed.
+
+Lemma do_get_xt_fuel_of vt s x st n : nofuel (snd (do_get_xt vt s x (fuel_of s) st n)).
+Proof.
+  apply do_get_xt_terminates. unfold fuel_of. pose proof (ucount_le_pop (s_pop s) (reg st)). lia.
+Qed.
+
+Lemma prepare_loop_xt_nf vt s x : forall ps st, nofuel (snd (prepare_loop_xt vt s x ps st)).
+Proof.
+  induction ps as [|p r IH]; intros st; cbn [prepare_loop_xt]; [exact I|].
+  destruct (is_lazy (s_pop s) p); [apply IH|].
+  pose proof (do_get_xt_fuel_of vt s x st p) as H.
+  destruct (do_get_xt vt s x (fuel_of s) st p) as [o1 [[st1 v]|k st1]]; [|exact H].
+  specialize (IH (set_active st1 (active st1 ++ [p]))).
+  destruct (prepare_loop_xt vt s x r (set_active st1 (active st1 ++ [p]))). exact IH.
+Qed.
+
+Lemma get_each_xt_nf vt s x : forall ns st, nofuel (snd (get_each_xt vt s x ns st)).
+Proof.
+  induction ns as [|n r IH]; intros st; cbn [get_each_xt]; [exact I|].
+  pose proof (do_get_xt_fuel_of vt s x st n) as H.
+  destruct (do_get_xt vt s x (fuel_of s) st n) as [o1 [[st1 v]|k st1]]; [|exact H].
+  specialize (IH st1). destruct (get_each_xt vt s x r st1). exact IH.
+Qed.
+
+(* a start of the extended semantics always terminates within the model's fuel, whatever the callbacks look up *)
+Theorem run_xt_terminates vt s x : nofuel (snd (run_xt vt s x)).
+Proof.
+  unfold run_xt, run_core_xt. destruct (s_loader_fail (normalise vt s)); [exact I|].
+  pose proof (prepare_loop_xt_nf vt (normalise vt s) x (sorted_procs (normalise vt s)) (set_scanned finit)) as H1.
+  destruct (prepare_loop_xt vt (normalise vt s) x (sorted_procs (normalise vt s)) (set_scanned finit)) as [o1 [st1|k st1]];
+    [|exact H1].
+  pose proof (get_each_xt_nf vt (normalise vt s) x (eager_names (normalise vt s)) st1) as H2.
+  destruct (get_each_xt vt (normalise vt s) x (eager_names (normalise vt s)) st1) as [o2 [st2|k st2]]; [|exact H2].
+  cbn [snd]. unfold call_runners. destruct (s_app (normalise vt s)) as [[[a rp] cp]|]; [apply run_each_nofuel|exact I].
+Qed.
